@@ -27,3 +27,48 @@ package codegen
 //@   ensures* path: result1 == nil && !(f.SkipExist && old(select(fsExists, path))) ==> result0 == path
 //@   loop 1 invariant monotone: fsWrites >= old(fsWrites)
 //@   ensures monotone: fsWrites >= old(fsWrites)
+
+// ---- identifiers (C01, necessary conditions only) ---------------------------------------------
+
+// A scope never hands out the same identifier twice: the name returned was not in use, is recorded, and
+// nothing else changes (whole-map postcondition). Two successive calls therefore return different names.
+//@ func (*NameScope).Unique
+//@   property C01
+//@   requires s != nil && s.counts != nil
+//@   ensures* fresh.name: !old(inMap(s.counts, result))
+//@   ensures* recorded: inMap(s.counts, result)
+//@   ensures* others.unchanged: forall k String :: k != result ==> inMap(s.counts, k) == old(inMap(s.counts, k)) && s.counts[k] == old(s.counts[k])
+//@   modifies* mapOf(s.counts)
+//@   frameprop C01
+
+//@ smt (declare-fun hashOf (Iface) String)
+//@ iface goa.design/goa/v3/codegen.Hasher.Hash
+//@   params key
+//@   ensures result == hashOf(key)
+
+// The same hash always yields the same name; a new hash yields a name that was not in use.
+//@ func (*NameScope).HashedUnique
+//@   property C01
+//@   requires s != nil && s.counts != nil && s.names != nil
+//@   ensures* same.hash.same.name: old(inMap(s.names, hashOf(key))) ==> result == old(s.names[hashOf(key)])
+//@   ensures* new.hash.new.name: !old(inMap(s.names, hashOf(key))) ==> !old(inMap(s.counts, result)) && inMap(s.names, hashOf(key)) && s.names[hashOf(key)] == result
+//@   ensures* other.hashes.unchanged: forall h String :: h != hashOf(key) ==> inMap(s.names, h) == old(inMap(s.names, h)) && s.names[h] == old(s.names[h])
+//@   modifies* mapOf(s.counts), mapOf(s.names)
+//@   frameprop C01
+
+//@ func (*NameScope).Name
+//@   property C01
+//@   requires s != nil
+//@   modifies* nothing
+//@   frameprop C01
+
+// Reserved words are escaped: the result is never a keyword, a predeclared identifier or one of the
+// package names the generated code imports.
+//@ func fixReservedGo
+//@   property C01
+//   -- representation invariant of the package table (its initial value): no entry ends with an underscore
+//@   requires forall k String :: inMap(isPackage, k) && isPackage[k] ==> !hasSuffix(k, "_")
+//@   ensures* not.reserved: !isPredeclared(result) && !isKeyword(result) && !(inMap(isPackage, result) && isPackage[result])
+//@   ensures* minimal: !isPredeclared(w) && !isKeyword(w) && !(inMap(isPackage, w) && isPackage[w]) ==> result == w
+//@   modifies* nothing
+//@   frameprop C01
